@@ -245,6 +245,52 @@ fn run(ctx: &mut Ctx) {
         }
     });
     ctx.require("avalanche at an edge pad row: built", 100);
+    // ---- wire waveforms far longer than any real setting (the ADC format allows up to 65 533 samples), alone and next to
+    // ordinary ones; a PWB packet whose MAC names another known board than its chunks and bank
+    ctx.cases("long-wires", ctx.tier.pick(14, 56), |ctx, i, rng| {
+        let len = [700usize, 1023, 1024, 1025, 1124, 1125, 1126, 2000, 2148, 4000, 4196, 16_000, 32_768, 65_533][(i % 14) as usize];
+        let w0 = rng.usize(256);
+        let mut banks: Banks = Vec::new();
+        for k in 0..1 + rng.usize(3) {
+            let l = if k == 0 { len } else { 200 + rng.usize(400) };
+            let mut ws: Vec<i16> = (0..l).map(|_| 3000 + (rng.gauss() * 3.0) as i16).collect();
+            let at = (l * 3 / 4).min(l.saturating_sub(30));
+            for (j, r) in m.wr.iter().enumerate() {
+                if at + j < l {
+                    ws[at + j] = (3000.0 + 200.0 * r).round() as i16;
+                }
+            }
+            banks.push(event::wire_bank(&inv, (w0 + k) % 256, ws));
+        }
+        banks.push(event::trg_bank(3));
+        exercise(ctx, u32::MAX, &banks, "wire waveform of up to 65 533 samples");
+    });
+    ctx.cases("foreign-packet", 32, |ctx, col, rng| {
+        let mut pm = BTreeMap::new();
+        pm.insert((col as usize, rng.usize(576)), (0..300).map(|_| 1725 + (rng.gauss() * 3.0) as i16).collect::<Vec<i16>>());
+        let mut banks = event::pad_banks(&inv, &pm, 1400);
+        // rebuild the message with the MAC of another board, chunk headers and bank name unchanged
+        let c = super::must_chunk(&banks[0].1);
+        let all: Vec<u8> = banks.iter().map(|b| super::must_chunk(&b.1)).flat_map(|c| c.payload().to_vec()).collect();
+        if let Some(mut p) = crate::refs::pwb_ref(&all) {
+            let other = crate::refs::PWB_BOARDS[(col as usize * 7 + 3) % 71];
+            if other.1 != p.mac {
+                p.mac = other.1;
+                let name = banks[0].0.clone();
+                banks = p.chunks(c.board_id().device_id(), banks[0].1[10], 1400).iter().map(|c| (name.clone(), c.encode())).collect();
+            }
+        }
+        banks.push(event::trg_bank(9));
+        for with_other_bank in [false, true] {
+            let mut b = banks.clone();
+            if with_other_bank {
+                let mut pm2 = BTreeMap::new();
+                pm2.insert(((col as usize + 5) % 32, rng.usize(576)), vec![1725i16; 200]);
+                b.extend(event::pad_banks(&inv, &pm2, 1400));
+            }
+            exercise(ctx, u32::MAX, &b, "PWB packet whose MAC names another board than its chunks");
+        }
+    });
     // ---- (ii)+(iii) forward-model events, plain and with extreme values
     let n = ctx.tier.pick(320, 12_000);
     ctx.cases("sim-extreme", n, |ctx, i, rng| {
